@@ -1,5 +1,6 @@
 import Panacea.Go.Prelude
 import Panacea.Model.CompKey
+import Panacea.Model.Did
 /-!
 # Further primitives of the translated Go subset (library functions of the SDK and the standard library)
 -/
@@ -32,5 +33,15 @@ def splitSep (s sep : Bytes) : P (List Bytes) :=
   match sep with
   | [b] => .ok (splitByte s b)
   | _ => .panic "UNSUPPORTED: strings.Split with a separator that is not one byte"
+
+
+/-- signature verification (secp256k1) — a parameter, never an axiom: public key, message, signature -/
+structure SigScheme where
+  verify : Bytes → Bytes → Bytes → Bool
+
+/-- `types.Verify(signature, signableData, seq, pubKey)` of x/did: the sign bytes are the protobuf message
+`DataWithSeq{data: signableData.Marshal(), sequence: seq}` (`Did.signBytes`); on success the next sequence. -/
+def didVerify (cr : SigScheme) (sig dataBytes : Bytes) (seq : Nat) (pub : Bytes) : Nat × Bool :=
+  if cr.verify pub (Did.signBytes dataBytes seq) sig then (u64add seq 1, true) else (0, false)
 
 end Panacea.Go
